@@ -71,6 +71,13 @@ def trust_table():
               if a.strip() != "Closed under the global context"]
         pa_txt = "none" if not pa else "; ".join(sorted(set(esc(a)[:260] for a in pa)))
         ck = e["coverage"].get("coqchk") or []
+        if isinstance(ck, str):          # some checks run coqchk themselves and store one summary
+            m = re.search(r"Axioms:? ?(.*?)( \* Constants|$)", ck)
+            ck_txt = "own coqchk run: Axioms %s" % (esc(m.group(1))[:200] if m else esc(ck)[:200])
+            ck = []
+        elif ck and not all(isinstance(c, dict) for c in ck):
+            ck_txt = esc(str(ck))[:300]
+            ck = []
         if ck:
             parts = []
             for c in ck:
@@ -78,7 +85,7 @@ def trust_table():
                 parts.append("%s: %s" % (c["module"].replace("QV.Props.", ""),
                                          esc(m.group(1))[:200] if m else "rc=%s" % c.get("rc")))
             ck_txt = "; ".join(parts)
-        else:
+        elif not e["coverage"].get("coqchk"):
             ck_txt = "(not run in this tier)"
         rows.append("| %s | %s | %s | %s |" % (e["property_id"], e["tier"], pa_txt, ck_txt))
     return "\n".join(rows)
